@@ -20,6 +20,15 @@ def _classify(op, a, b):
             xs = x.split(","); ys = y.split(",")
             for p, q in zip(xs, ys):
                 if p != q:
+                    fp, fq = p.split("/"), q.split("/")
+                    if len(fp) == len(fq) == 4 and fp[0] == fq[0] and fp[1] == fq[1] and fp[3] == fq[3]:
+                        try:
+                            tv = bytes.fromhex(fp[2] if fp[2] != "-" else "").decode("utf8")
+                            tf = bytes.fromhex(fq[2] if fq[2] != "-" else "").decode("utf8")
+                            if "\r" in tv and tv.replace("\r\n", "\n").replace("\r", "\n") == tf:
+                                return ("carriage-return-normalised", f"workbook: {p} file: {q}")
+                        except Exception:
+                            pass
                     return ("view-differs-" + key, f"workbook: {p} file: {q}")
             return ("view-differs-" + key, f"lengths {len(xs)} vs {len(ys)}")
     return ("view-differs", "")
